@@ -1,6 +1,7 @@
 from .common import COMMON_ASSUME
 
 CFG = {
+    "default_features_variant": True,   # also run the harness built against rpm-rs WITHOUT its optional bzip2 feature (feature-gated code paths)
     "props_module": "RpmVerif.Props.C09",
     "required_theorems": ["RpmVerif.C09.fromEntries_valid", "RpmVerif.C09.slots_nonempty", "RpmVerif.C09.builder_records_nonempty",
                           "RpmVerif.C09.builder_tags_legal", "RpmVerif.C09.builder_records_ok", "RpmVerif.C09.build_header_valid",
